@@ -143,6 +143,8 @@ FAMILIES['C09'] = [
     fam('stopped-in-waitp', ['HOLD HOLD', 'TADD WAITP0 HOLD', 'HOLD STOP1', 'WAITP1'], w=6),
     fam('stopped-in-waite', ['TADD WAITE HOLD', 'HOLD STOP0', 'WAITP0 HOLD'], w=4),
     fam('stop-self', ['ACQ PACQ TADD STOP0', 'WAITP0 ACQ REL', 'TADD PACQ'], w=3),
+    fam('stop-self-waited', ['ACQ HOLD STOP0', 'WAITP0 ACQ REL', 'HOLD WAITP0'], w=3),       # waiters registered before the process stops itself
+    fam('exit-waited', ['ACQ HOLD EXIT', 'WAITP0 ACQ REL', 'HOLD WAITP0'], w=3),
     fam('restart-after-stop', ['ACQ PACQ TADD HOLD', 'HOLD STOP0 HOLD RESTART0 WAITP0', 'WAITP0 ACQ REL'], w=5),
     fam('restart-after-return', ['TADD ACQ HOLD', 'WAITP0 RESTART0 WAITP0 HOLD'], w=3),
     fam('ends-with-interrupt-pending', ['HOLD', 'HOLD INTR0 HOLD'], PRIOSYM=1, w=3),
